@@ -1030,7 +1030,13 @@ def c20_r3(ctx):
         for o in lp["iter"]:
             if is_call(o, "blob::Blob::get_paths"):
                 gp = e.call_at[o[0][2]]
-        if gp is None or e.origins_of_operand(gp.args[0]) != {o + (("field", "blob"),) for o in inner} or any(st[0] == "truncate" for o in lp["iter"] for st in o[1:]):
+        blob_of_result = {o + (("field", "blob"),) for o in inner}
+        if gp is None and lp["iter"] and all(any(o[:len(b)] == b for b in blob_of_result) for o in lp["iter"]) \
+                and not any(st[0] == "truncate" for o in lp["iter"] for st in o[1:]):
+            # the finished rule's blob is traversed, but not as get_paths(): how a path is taken
+            # from an element is not something this rule reads
+            raise AnalysisError("idiom not recognised: the status lines of %s traverse the finished rule's blob directly, not blob.get_paths()" % e.id)
+        if gp is None or e.origins_of_operand(gp.args[0]) != blob_of_result or any(st[0] == "truncate" for o in lp["iter"] for st in o[1:]):
             ctx.viol((e.id, "print-other-collection"), "status lines are not printed for exactly the paths of the finished rule's blob (iterates %s)" % sorted(map(fmt_origin, lp["iter"])), e.where(lp["header"]))
             continue
         if not e.every_iteration_calls(lp, [p.bb]) or e.on_cycle(p.bb) and any(p.bb in l["body"] for l in lps if l["header"] != lp["header"] and l["header"] in lp["body"]):
